@@ -495,6 +495,31 @@ pub fn run_case(prog: &Vec<Vec<Step>>, hist: &[Act]) -> Result<(), Fail> {
             from = en + 1;
           }
         }
+        // ... and so does a WRITE during the build: every task with a recorded read of the written resource is checked inside the bracket
+        // of that write, unless it is waiting, executing, or was already executed in this build (its record is then newer than `model`)
+        {
+          let first_build = ev.iter().position(|e| e.kind == "build" && e.start).unwrap_or(ev.len());
+          let mut stack: Vec<&String> = vec![]; let mut done: Vec<&String> = vec![]; let mut waiting: Vec<&String> = vec![];
+          let mut i = 0usize;
+          while i < ev.len() {
+            let e = &ev[i];
+            if e.kind == "schedule" && !waiting.contains(&&e.subject) { waiting.push(&e.subject); }
+            if e.kind == "execute" && e.start { stack.push(&e.subject); waiting.retain(|w| **w != e.subject); }
+            if e.kind == "execute" && !e.start { stack.pop(); done.push(&e.subject); }
+            if i > first_build && e.start && e.kind == "sched_res" {
+              let en = match ev[i..].iter().position(|x| !x.start && x.kind == "sched_res" && x.subject == e.subject) { Some(p) => i + p, None => break };
+              let checked: Vec<&String> = ev[i..en].iter().filter(|x| x.kind == "check_read" && !x.start).map(|x| &x.subject).collect();
+              let mut owners: Vec<&String> = model.deps.iter().filter(|(t, ds)| model.completed.contains(*t) && ds.iter().any(|d| d.kind == "read" && d.subject == e.subject)).map(|(t, _)| t).collect();
+              owners.sort();
+              for t in owners {
+                if !checked.contains(&t) && !waiting.contains(&t) && !stack.contains(&t) && !done.contains(&t) {
+                  fail!("C09", "C09.bounded.write_validates_every_reader", "{} has a recorded read of {}, which {} wrote in this bottom-up build, but that dependency was not checked", t, e.subject, done.last().map(|x| x.as_str()).unwrap_or("a task"));
+                }
+              }
+            }
+            i += 1;
+          }
+        }
         // scheduling follows the verdict of the dependency's own checker: not consistent (or failed) <=> the task is scheduled: `schedule`
         // is the next event, or the task is already waiting (scheduled earlier in this build and not executed yet)
         {
